@@ -37,6 +37,8 @@ type Contract struct {
 	Line      int
 	Used      bool
 	// templates
+	IsDirective   bool
+	Directive     string
 	IsTemplate    bool
 	TemplRecv     string // receiver type name
 	TemplPattern  string // function name glob
@@ -71,7 +73,7 @@ var clauseKeywords = map[string]bool{
 	"serves": true, "requires": true, "ensures": true, "modifies": true, "decreases": true,
 	"loop": true, "flag": true, "pure": true, "trusted": true, "inline": true, "opaque": true,
 	"nopanic": true, "maypanic": true, "unroll": true, "abstract": true, "allocates": true, "replaytext": true, "wrap": true, "overflow": true, "norac": true, "stages": true,
-	"assume-unreachable": true, "ghostset": true, "assumes": true, "assumepre": true, "lemma": true, "except": true, "loopinvariant": true, "loopdecreases": true, "notemplate": true,
+	"split": true, "assume-unreachable": true, "ghostset": true, "assumes": true, "assumepre": true, "lemma": true, "except": true, "loopinvariant": true, "loopdecreases": true, "notemplate": true,
 }
 
 // parseContracts reads all /*@ ... @*/ blocks of a contracts file.
@@ -131,6 +133,13 @@ func parseBlock(body string) (*Contract, error) {
 		return nil, fmt.Errorf("empty contract block")
 	}
 	c := &Contract{Loops: map[int]*LoopContract{}, Flags: map[string]string{}}
+	if strings.HasPrefix(clauses[0], "assume-invariant ") {
+		c.IsDirective = true
+		c.Key = "directive:" + clauses[0]
+		c.Directive = strings.TrimSpace(strings.TrimPrefix(clauses[0], "assume-invariant "))
+		c.Used = true
+		return c, nil
+	}
 	if tm := templateRe.FindStringSubmatch(clauses[0]); tm != nil {
 		c.IsTemplate = true
 		c.TemplRecv = tm[1]
@@ -538,6 +547,11 @@ func applyTemplates(contracts []*Contract, funcs []string) []*Contract {
 					c.Flags[k] = v
 				}
 			}
+			c.AssumePre = append(c.AssumePre, t.AssumePre...)
+			c.AssumeUnreach = append(c.AssumeUnreach, t.AssumeUnreach...)
+			c.Assumes = append(pre(t.Assumes), c.Assumes...)
+			c.GhostSets = append(c.GhostSets, t.GhostSets...)
+			c.Lemmas = append(c.Lemmas, t.Lemmas...)
 			c.LoopInv = append(pre(t.LoopInv), c.LoopInv...)
 			if len(c.LoopDec) == 0 {
 				c.LoopDec = t.LoopDec
